@@ -176,6 +176,8 @@ val existsb : ('a1 -> bool) -> 'a1 list -> bool
 
 val forallb : ('a1 -> bool) -> 'a1 list -> bool
 
+val filter : ('a1 -> bool) -> 'a1 list -> 'a1 list
+
 val repeat : 'a1 -> nat -> 'a1 list
 
 module Z :
@@ -234,6 +236,8 @@ val append : char list -> char list -> char list
 val length0 : char list -> nat
 
 val substring : nat -> nat -> char list -> char list
+
+val concat : char list -> char list list -> char list
 
 type q = { qnum : z; qden : positive }
 
@@ -648,19 +652,37 @@ val run_run : sexp -> sexp
 type lvl =
 | LClean
 | LSet
-| LAny
+| LGuard of char list list
 
-val lvl_eqb : lvl -> lvl -> bool
+val lAny : lvl
+
+val mem_s : char list -> char list list -> bool
+
+val incl_b : char list list -> char list list -> bool
+
+val is_clean : lvl -> bool
 
 val lle : lvl -> lvl -> bool
 
 val lmax : lvl -> lvl -> lvl
+
+val lforget_all : char list list -> lvl -> lvl
+
+val lguard : char list -> lvl -> lvl
+
+val lfalse : char list -> lvl -> lvl
 
 type astate = (char list * lvl) list
 
 val aget : char list -> astate -> lvl
 
 val aset : char list -> lvl -> astate -> astate
+
+val amap : (lvl -> lvl) -> astate -> astate
+
+val aforget_all : char list list -> astate -> astate
+
+val aforget : char list -> astate -> astate
 
 val ajoin : astate -> astate -> astate
 
@@ -682,10 +704,20 @@ val fill_ok : char list list -> branch list -> astate -> bool
 
 val awrite : char list list -> char list -> astate -> astate
 
+val abot : char list list -> astate
+
+val is_true_flag : decl -> bool
+
+val ai_decls :
+  char list list -> decl list -> char list list -> astate -> astate option
+
+val cond_false : cexp -> astate -> astate
+
 val ai_stmt : char list list -> branch list -> stmt -> astate -> astate option
 
 val ai_block :
-  char list list -> branch list -> block -> astate -> astate option
+  char list list -> branch list -> block -> char list list -> astate ->
+  astate option
 
 val nodupb : char list list -> bool
 
@@ -704,8 +736,8 @@ val lvl_name : lvl -> char list
 val s_astate : astate -> sexp
 
 val dg_block :
-  char list list -> branch list -> block -> astate -> (char list * astate)
-  option
+  char list list -> branch list -> block -> char list list -> astate ->
+  (char list * astate) option
 
 val run_event_local : sexp -> sexp
 
